@@ -165,7 +165,7 @@ def _impl_worker(c):
                 r["truncated"] = True
         return r
     except MemoryError:
-        return {"status": "CRASH", "err": "MemoryError", "site": "harness-worker", "msg": "memory limit of the worker reached"}
+        return {"status": "TIMEOUT", "resource": "memory"}
 
 
 def run_impl_all(cases, procs=None):
